@@ -155,16 +155,17 @@ func main() {
 	flag.Parse()
 	os.MkdirAll(*outDir, 0o755)
 	gens := map[string]func() string{
-		"Header.lean":  genHeader,
-		"Layout.lean":  genLayout,
-		"Breaker.lean": genBreaker,
-		"Pool.lean":    genPool,
-		"Select.lean":  genSelect,
-		"Preds.lean":   genPreds,
-		"Sites.lean":   genSites,
-		"Atomic.lean":  genAtomic,
-		"Fanout.lean":  genFanout,
-		"Plugins.lean": genPlugins,
+		"Header.lean":         genHeader,
+		"Layout.lean":         genLayout,
+		"Breaker.lean":        genBreaker,
+		"Pool.lean":           genPool,
+		"Select.lean":         genSelect,
+		"Preds.lean":          genPreds,
+		"Sites.lean":          genSites,
+		"Atomic.lean":         genAtomic,
+		"Fanout.lean":         genFanout,
+		"Plugins.lean":        genPlugins,
+		"DiscoveryFacts.lean": genDiscovery,
 	}
 	names := make([]string, 0, len(gens))
 	for n := range gens {
